@@ -144,7 +144,7 @@ func (f *FieldCopyToGenerator) genZeroValue(fieldName string) func(*j.Group) {
 		// v.Null = v.Value == ""
 		if f.ZeroValue != "" {
 			isZero := j.Id(f.i.WithType(f.ValueCastToType)).Parens(j.Id(fieldName)).Op("==").Id(f.ZeroValue)
-			if f.ParentIsOptionalEmbed {
+			if f.ParentIsOptionalEmbed && f.OneOfName == "" {
 				// The field is promoted from a nullable embedded message: it can be read only when the
 				// embedded pointer is set, otherwise the attribute is null.
 				isZero = j.Id("obj." + f.ParentIsOptionalEmbedFieldName).Op("==").Nil().Op("||").Add(isZero)
@@ -162,7 +162,8 @@ func (f *FieldCopyToGenerator) genPrimitiveBody(fieldName string, g *j.Group) {
 	g.If(j.Id("!ok")).BlockFunc(f.genZeroValue(fieldName))
 
 	if !f.IsPlaceholder {
-		if f.ParentIsOptionalEmbed {
+		// (a oneof branch has been read through the oneof stub, which takes care of the embedded message)
+		if f.ParentIsOptionalEmbed && f.OneOfName == "" {
 			g.If(j.Id("obj." + f.ParentIsOptionalEmbedFieldName).Op("==").Nil()).Block(
 				j.Id("v.Null").Op("=").True(),
 			).Else().Block(f.genAssignValue(fieldName))
@@ -255,12 +256,30 @@ func (f *FieldCopyToGenerator) genPrimitive() *j.Statement {
 	})
 }
 
+// genEmbeddedSource reads a field promoted from a nullable embedded message into a local variable, which
+// holds the zero value (nil for pointers, slices and maps) when the embedded message is not set:
+//
+//	var src []string
+//	if obj.Embedded != nil { src = obj.List }
+//
+// It returns the expression to read the field from.
+func (f *FieldCopyToGenerator) genEmbeddedSource(g *j.Group) string {
+	if !f.ParentIsOptionalEmbed || f.OneOfName != "" {
+		return "obj." + f.Name
+	}
+	g.Var().Id("src").Id(f.i.WithType(f.GoType))
+	g.If(j.Id("obj." + f.ParentIsOptionalEmbedFieldName).Op("!=").Nil()).Block(
+		j.Id("src").Op("=").Id("obj." + f.Name),
+	)
+	return "src"
+}
+
 // genObject generates CopyTo statement for a nested message
 func (f *FieldCopyToGenerator) genObject() *j.Statement {
 	m := NewMessageCopyToGenerator(f.Message, f.i)
-	fieldName := "obj." + f.Name
 
 	return f.nextField("a", func(g *j.Group) {
+		fieldName := f.genEmbeddedSource(g)
 		if f.OneOfName != "" {
 			f.genOneOfStub(g)
 		}
@@ -277,7 +296,16 @@ func (f *FieldCopyToGenerator) genOneOfStub(g *j.Group) {
 	//     obj, ok := obj.OneOf.(*Test_Branch3)
 	//     if !ok { obj = &Test_Branch3{} }
 	// }
-	g.List(j.Id("obj"), j.Id("ok")).Op(":=").Id("obj." + f.OneOfName).Assert(j.Id("*" + f.i.WithType(f.OneOfType)))
+	if f.ParentIsOptionalEmbed {
+		// the oneof is promoted from a nullable embedded message: it is unset when the message is
+		g.Var().Id("oneOf").Interface()
+		g.If(j.Id("obj." + f.ParentIsOptionalEmbedFieldName).Op("!=").Nil()).Block(
+			j.Id("oneOf").Op("=").Id("obj." + f.OneOfName),
+		)
+		g.List(j.Id("obj"), j.Id("ok")).Op(":=").Id("oneOf").Assert(j.Id("*" + f.i.WithType(f.OneOfType)))
+	} else {
+		g.List(j.Id("obj"), j.Id("ok")).Op(":=").Id("obj." + f.OneOfName).Assert(j.Id("*" + f.i.WithType(f.OneOfType)))
+	}
 	g.If(j.Id("!ok")).Block(
 		j.Id("obj").Op("=").Id("&" + f.i.WithType(f.OneOfType)).Values(),
 	)
@@ -285,6 +313,9 @@ func (f *FieldCopyToGenerator) genOneOfStub(g *j.Group) {
 
 func (f *FieldCopyToGenerator) genListOrMap() *j.Statement {
 	fieldName := "obj." + f.Name
+	if f.ParentIsOptionalEmbed {
+		fieldName = "src" // see genEmbeddedSource
+	}
 
 	var mk j.Code
 
@@ -298,6 +329,7 @@ func (f *FieldCopyToGenerator) genListOrMap() *j.Statement {
 	}
 
 	return f.nextField("a", func(g *j.Group) {
+		f.genEmbeddedSource(g)
 		f.assertTo(f.Field.Type, g, func(g *j.Group) {
 			f.getAttr("c", f.Field.ValueType, g)
 
